@@ -145,17 +145,27 @@ inductive LogEntry where
   | conf (c : Change)
 deriving DecidableEq, Repr, Inhabited
 
-/-- `DefaultCommitHandler::process_batch` over one batch of newly committed entries: config entries
-    are applied in log order; after the first failing one the remaining config entries of the *same
-    batch* are skipped (`last_error.is_none() && …`). -/
+/-- `DefaultCommitHandler::process_batch` over one batch of newly committed entries (as of fix
+    for F51): every config entry is applied in log order, also after an earlier one failed; the flag
+    only remembers that an error is reported. -/
 def applyBatch (v : View) : List LogEntry → Bool → View
   | [], _ => v
   | .cmd :: rest, failed => applyBatch v rest failed
   | .conf c :: rest, failed =>
-    if failed then applyBatch v rest true
+    let r := applyChange v c
+    applyBatch r.1 rest (failed || r.2.1.isSome)
+
+/-- `process_batch` before the fix for F51: after the first failing config entry the remaining
+    config entries of the *same batch* were skipped (`last_error.is_none() && …`) although all
+    entries of the batch were handed to the state machine. -/
+def applyBatchSkipping (v : View) : List LogEntry → Bool → View
+  | [], _ => v
+  | .cmd :: rest, failed => applyBatchSkipping v rest failed
+  | .conf c :: rest, failed =>
+    if failed then applyBatchSkipping v rest true
     else
       let r := applyChange v c
-      applyBatch r.1 rest r.2.1.isSome
+      applyBatchSkipping r.1 rest r.2.1.isSome
 
 /-- fold of the config entries, every one applied (the reference for C28). -/
 def foldConf (v : View) (es : List LogEntry) : View :=
